@@ -55,8 +55,9 @@ def decDigitsAux : Nat → Nat → Bytes → Bytes
     let acc' := (48 + (n % 10).toUInt8) :: acc
     if n / 10 = 0 then acc' else decDigitsAux fuel (n / 10) acc'
 
-/-- decimal representation without leading zeros (`"0"` for zero) -/
-def toDec (n : Nat) : Bytes := decDigitsAux (n + 1) n []
+/-- decimal representation without leading zeros (`"0"` for zero); exact for
+    every `n < 10^20`, which covers the 64-bit `unsigned long` / `size_t` range -/
+def toDec (n : Nat) : Bytes := decDigitsAux 20 n []
 
 /-! ### `strtoul (s, &end, 10)` on a 64-bit `unsigned long` -/
 
